@@ -153,7 +153,7 @@ def run(chk):
     # ---------------- fragments the host constructs: stamped as send() does, decoded by the independent decoder
     from props import c09
     fbad = None
-    totals = list(range(244, 256)) + [490, 491, 494, 495, 496, 497, 498, 741, 742, 743, 744, 745] + \
+    totals = list(range(5, 12)) + list(range(240, 256)) + [490, 491, 494, 495, 496, 497, 498, 741, 742, 743, 744, 745] + \
         [rng.randrange(248, 1300) for _ in range(60 if thorough else 15)]
     for total in totals:
         h = rand_header(rng)
@@ -177,6 +177,12 @@ def run(chk):
             size, fl = int(o[2:].split(",")[0]), int(o[2:].split(",")[1])
             if size != len(b) - 2 or (fl >> 2) & 3 != seq:
                 fbad = (h, hexs(d), total, "fragment %d/%d: length field %d but %d bytes follow the marker (seq %d)" % (i + 1, len(wire), size, len(b) - 2, (fl >> 2) & 3))
+                break
+            # the bytes on the wire say where the message starts and ends: first flag on frame 1 only, last flag on the
+            # last frame only (a single frame carries both) - otherwise they do not decode back to what was built
+            if bool(fl & 0x40) != (i == 0) or bool(fl & 0x80) != (i == len(wire) - 1):
+                fbad = (h, hexs(d), total, "frame %d/%d of the message carries flags 0x%02x (first flag %s, last flag %s)"
+                        % (i + 1, len(wire), fl, "expected" if i == 0 else "not expected", "expected" if i == len(wire) - 1 else "not expected"))
                 break
         if fbad:
             break
